@@ -68,6 +68,9 @@ K("contains_item_contract", ["C05", "C07"], ITF,
 K("item_vector_contract", ["C05"], ITF,
   "Writer::item_vector returns the stored vector bit-for-bit at the declared dimension, None when absent",
   "symbolic store: 2 entries + 1 leaf with arbitrary bytes; dim 2", site="Writer::item_vector")
+K("iter_yields_stored_vector_euclidean", ["C05", "C07"], ITF,
+  "Writer::iter yields the index's stored item once with its vector bit-for-bit at the declared dimension, nothing of other indexes",
+  "symbolic store: 2 neighbour entries (no item of this index) + 1 leaf with arbitrary bytes; dim 2", site="ItemIter::next")
 K("reset_updated_contract", ["C06", "C07"], ITF,
   "reset_and_retrieve_updated_items removes exactly this index's updated marks, returns their ids, everything else byte-identical",
   "symbolic store: 4 entries; mark ids < 64 (bit-set model)", site="Writer::reset_and_retrieve_updated_items")
@@ -233,6 +236,11 @@ MIRSYM("change_metric_step", ["C18", "C07"],
        "prepare_changing_distance over a constant-shape database: every item key kept and re-encoded as a valid leaf of the new metric at the declared dimension; forest and metadata of the index removed; pending marks and every entry of other indexes untouched; same metric => nothing written",
        "database: index 7 = {metadata, version, 1 updated mark, 2 tree nodes, items 1 and u32::MAX} + neighbours 6 and 8; dimension 1..=130 symbolic; codec transitions f32->f32, f32->quantised, quantised->f32, quantised->quantised, identity; vectors abstracted to (codec, logical length)",
        _lazy("e2_metric"), site="Writer::prepare_changing_distance")
+
+MIRSYM("item_iteration", ["C05", "C12"],
+       "Writer::iter / Reader::iter + ItemIter::next over a constant-shape database yield exactly this index's items, ascending, once each, every vector at the declared dimension (for quantised metrics: not at the padded width), nothing of the neighbouring indexes, no error or panic",
+       "database: index 7 with items 1 and u32::MAX (+ metadata, marks, tree nodes) and neighbours 6 and 8; dimension 1..=300 symbolic; f32 and quantised leaves abstracted to (codec, logical length)",
+       _lazy("e2_metric", "iter_obligation"), site="ItemIter::next")
 
 MIRSYM("distance_kernels_structure", ["C11"],
        "for every length n the value computed by spaces::simple::{dot_product, euclidean_distance} on each dispatch path (AVX+FMA, SSE, scalar) equals sum_i a_i*b_i resp. sum_i (a_i-b_i)^2 modulo re-association of the sum: every index used exactly once, right pairing, right remainder, no out-of-bounds read",
